@@ -69,6 +69,7 @@ func main() {
 	verbose := flag.Bool("v", false, "verbose")
 	dump := flag.String("dump", "", "print the SMT script of the obligation with this name")
 	seed := flag.Int("seed", 0, "seed (recorded; the proof is deterministic)")
+	stability := flag.Int("stability", 0, "re-run every discharged obligation with this many z3 random seeds and report the ones that do not always discharge")
 	flag.Parse()
 	t0 := time.Now()
 	if *timeout == 0 {
@@ -154,6 +155,9 @@ func main() {
 		return
 	}
 	Discharge(em, all, dir, *timeout, *workers, *keep != "")
+	if *stability > 0 {
+		Stability(em, all, dir, *stability, *workers)
+	}
 	if tmpDir != "" {
 		os.RemoveAll(tmpDir)
 	}
